@@ -139,12 +139,14 @@ theorem setup_payload_fits (maxSize tokOpts num blk total : Nat) (b : BlockB)
 /-! ## Layer B, receiver side (COAP_BLOCK_SINGLE_BODY Block1 receive path of coap_handle_request_put_block)
 
 Full statements that are NOT proved (kept here as the target):
-  never_wrong_body            — for the composed system client ∘ network ∘ server under every schedule, anything a
+  never_wrong_body            — for the real composed system client ∘ network ∘ server under every schedule, anything a
                                 handler receives is the sender's body / its slices (Block1 and Block2, both modes).
   at_most_once_per_transfer   — at most one delivery per transfer under every schedule.
-What is proved below is the receiver automaton `srcvStep` alone (transcribed from the C, tied by the `srcv`/`srcv2` ops):
-the sender side (lg_xmit, retransmission, token substitution), the client's Block2 receive path
-(coap_handle_response_get_block), per-block mode, Q-Block, BERT and Block+Observe are outside; they are trace-checked only.
+What is proved: the receiver automata alone under a slice hypothesis (this section: server Block1 `srcvStep`; next
+section: client Block2 `crcvStep`), the sender automata (`xmitB2Step`, `xmitB1Step`, first message), and the composition
+of sender, lossy network and receiver for one transfer per direction WITHOUT that hypothesis
+(`never_wrong_body_block2_composed_partial`, `never_wrong_body_block1_composed_partial`); token substitution, timers,
+per-block mode on the server, Q-Block, BERT and Block+Observe are outside; they are trace-checked only.
 -/
 
 /-- For EVERY sequence of received Block1 datagrams — any order, any duplicates, any losses, any mix of block sizes not
@@ -182,12 +184,13 @@ example : ((srcvStep 4 0 1 none 0 1 2 (List.replicate 64 7) none).1.map (·.recv
 M = `crcvStep` (Model/BlockCrcv.lean), tied to the real function by the T2 op `crcv`.  The theorems below are about the
 receiver automaton alone, for EVERY sequence of responses (any order, duplicates, losses, any ETag / Content-Format
 on each of them, restarts after an ETag change included) each of which carries the server's slice for its NUM/SZX
-(`Genuine2`); `never_wrong_body_block2` further down removes that hypothesis for a libcoap server.
+(`Genuine2`); `never_wrong_body_block2_composed_partial` further down removes that hypothesis for a libcoap server.
 Two things a foreign server could do are excluded by `Genuine2` because the C code has no defence against them
-(confirmed on the real function, see design/C09.md): changing SZX in the middle of a transfer (block numbers are
-recorded in mixed units: witness below) and announcing different Size2 values on different blocks while sending
-blocks the client did not ask for (coap_block_build_body is called with THIS response's Size2 and can shrink the
-buffer).  Neither can happen with a libcoap server (`server_block2_genuine`). -/
+(confirmed on the real function, see design/C09.md): changing SZX in the middle of a transfer WITHOUT changing the
+ETag (block numbers are recorded in mixed units: witness below; `Genuine2` demands the tracked size only of responses
+that pass the lg_crcv's ETag tests) and announcing different Size2 values on different blocks while sending blocks
+the client did not ask for (coap_block_build_body is called with THIS response's Size2 and can shrink the buffer).
+Neither can happen with a libcoap server (`server_block2_genuine`, `B2Inv.func`). -/
 
 /-- Block2, single-body AND per-block mode, every response sequence: a body handed to the response handler is exactly
 the server's body with its exact length (single-body); every block handed over is the server's slice at the offset
